@@ -70,12 +70,20 @@ void AttributesTools::getAttributesMap(
     string arg = argv2[i];
     if (arg == "")
       continue; // Skipping void line.
-    while (arg[arg.size() - 1] == '\\')
+    while (!arg.empty() && arg[arg.size() - 1] == '\\')
     {
       // Splitted line
       i++;
+      if (i >= argv2.size())
+      {
+        // Continuation character on the last line: nothing to append.
+        arg = arg.substr(0, arg.length() - 1);
+        break;
+      }
       arg = arg.substr(0, arg.length() - 1) + argv2[i];
     }
+    if (arg == "")
+      continue;
     // Parsing:
     string::size_type limit = arg.find(delimiter, 0);
     if (limit == string::npos)
